@@ -1026,6 +1026,96 @@ class AnnotateStream(Stream):
 
 
 # --------------------------------------------------------------------------
+# stream 6b: the templates below .reuse/templates/ are project files too -- oracle only
+
+OK_TEMPLATE = ("{% for c in copyright_lines %}\n{{ c }}\n{% endfor %}\n{% for c in contributor_lines %}\nSPDX-FileContributor: {{ c }}\n{% endfor %}\n\n"
+               "{% for e in spdx_expressions %}\nSPDX-License-Identifier: {{ e }}\n{% endfor %}\n")
+# kind -> (bytes of NAME.jinja2, usable?)   usable = a header with the requested information can be made from it (ground truth by construction)
+TEMPLATE_KINDS = {
+    "ok": (OK_TEMPLATE, True),
+    "ok-with-text": ("This file is part of X.\n\n" + OK_TEMPLATE + "\nEnd of header.\n", True),
+    "ok-crlf": (OK_TEMPLATE.replace("\n", "\r\n"), True),
+    "empty": ("", False),
+    "no-tags": ("nothing of interest\n", False),
+    "syntax-for": ("{% for x in %}\n", False),
+    "syntax-unclosed-variable": (OK_TEMPLATE + "{{ unclosed\n", False),
+    "syntax-stray-endfor": ("{% endfor %}\n" + OK_TEMPLATE, False),
+    "syntax-unknown-tag": ("{% frobnicate %}\n" + OK_TEMPLATE, False),
+    "syntax-unknown-filter": (OK_TEMPLATE + "{{ 'x'|nosuchfilter }}\n", False),
+    "syntax-unclosed-comment": ("{# never closed\n" + OK_TEMPLATE, False),
+    "not-utf8": (b"\xff\xfe" + OK_TEMPLATE.encode(), False),
+    "latin1": ((u"# caf\xe9\n" + OK_TEMPLATE).encode("latin-1"), False),
+    "nul": (OK_TEMPLATE.encode() + b"\x00\x00\n", True),
+    "undefined-attribute": (OK_TEMPLATE + "{{ nope.attr }}\n", False),
+    "undefined-call": (OK_TEMPLATE + "{{ nope() }}\n", False),
+    "division-by-zero": (OK_TEMPLATE + "{{ 1 // 0 }}\n", False),
+    "type-error": (OK_TEMPLATE + "{{ 1 + 'a' }}\n", False),
+    "missing-include": (OK_TEMPLATE + "{% include 'not-there.jinja2' %}\n", False),
+    "literal-bad-expression": (OK_TEMPLATE + "SPDX-License-Identifier: MIT OR\n", False),
+    "literal-bad-expression-paren": ("SPDX-License-Identifier: (MIT\n" + OK_TEMPLATE, False),
+    "long-line": (OK_TEMPLATE + "x" * (1 << 20) + "\n", True),
+    "deep-nesting": ("{% if true %}" * 400 + "x" + "{% endif %}" * 400 + "\n" + OK_TEMPLATE, None),   # (either answer, but an answer)
+}
+
+
+class TemplateStream(Stream):
+    name = "templates"
+    exhaustive = True
+    rule = ("`reuse annotate --template t` with .reuse/templates/t.jinja2 (and t.commented.jinja2) of %d kinds - usable, empty, six kinds of "
+            "syntax error, not UTF-8, NUL bytes, undefined names, arithmetic and type errors while rendering, a missing include, a literal "
+            "unparseable licence expression, a 1 MB line, 400-fold nesting - on a file without and one with a header, named and through "
+            "--recursive: no traceback, exit status in {0, 1, 2}; a usable template => exit 0 and the header written; otherwise exit != 0 "
+            "and every file byte-identical (oracle only)" % len(TEMPLATE_KINDS))
+
+    def cases(self, tier, rng):
+        for k in sorted(TEMPLATE_KINDS):
+            for commented in (False, True):
+                for target in ("fresh", "with-header", "recursive"):
+                    yield {"kind": k, "commented": commented, "target": target}
+
+    def impl(self, case):
+        content = TEMPLATE_KINDS[case["kind"]][0]
+        if case["commented"]:
+            content = (b"# " + content) if isinstance(content, bytes) else "\n".join(("# " + l) if l and not l.startswith("{%") else l for l in content.split("\n"))
+        with cli.scratch("rv-c16t-") as root:
+            tree = {".reuse/templates/t%s.jinja2" % (".commented" if case["commented"] else ""): content,
+                    "src/fresh.py": "print(1)\n", "src/old.py": HDR + "print(2)\n"}
+            cli.write_tree(root, tree)
+            before = cli.snapshot(root)
+            paths = {"fresh": ["src/fresh.py"], "with-header": ["src/old.py"], "recursive": ["--recursive", "src"]}[case["target"]]
+            code, out, exc = cli.run_cli(["annotate", "-c", "Joe Bloggs", "-l", "0BSD", "--template", "t"] + paths, root)
+            if exc is not None:
+                return "traceback:" + type(exc).__name__
+            after = cli.snapshot(root)
+            changed = sorted(k for k in set(before) | set(after) if before.get(k) != after.get(k))
+            written = all(b"Joe Bloggs" in after[k][1] and b"0BSD" in after[k][1] for k in changed) and bool(changed)
+            return "exit:%s changed:%s written:%s" % (code, ",".join(changed), "1" if written else "0")
+
+    def oracle(self, case, impl_out):
+        if impl_out.startswith(("traceback", "EXC")):
+            return "traceback: `reuse annotate --template` with a %s template ended in an unhandled %s" % (case["kind"], impl_out.split(":", 1)[1])
+        m = re.fullmatch(r"exit:(\d+) changed:(\S*) written:([01])", impl_out)
+        code, changed, written = m.group(1), [c for c in m.group(2).split(",") if c], m.group(3) == "1"
+        if code not in ("0", "1", "2"):
+            return "exit-status: %s" % code
+        usable = TEMPLATE_KINDS[case["kind"]][1]
+        if usable is None:
+            usable = code == "0"
+        if usable:
+            if code != "0" or not written:
+                return "usable-template-refused: exit %s, changed %s" % (code, changed)
+        else:
+            if code == "0":
+                return "broken-template-accepted: exit 0 with a %s template (changed %s)" % (case["kind"], changed)
+            if changed:
+                return "failed-but-wrote: exit %s yet %s changed" % (code, changed)
+        return None
+
+    def nontrivial(self, case, impl_out):
+        return (case["kind"], case["commented"], case["target"], impl_out.split(" ")[0])
+
+
+# --------------------------------------------------------------------------
 # stream 7: files and directories that vanish WHILE the tree is being walked (between the directory listing and the questions
 # the walk asks about each listed name) -- oracle only
 
@@ -1378,7 +1468,7 @@ for _cls in (CliStream, PerFileStream, AnnotateStream, WalkRaceStream, Terminati
 
 PROPERTY = Property(
     pid="C16",
-    streams=[ShapeStream(), TreeStream(), BytesStream(), CliStream(), PerFileStream(), AnnotateStream(), WalkRaceStream(), TerminationStream()],
+    streams=[ShapeStream(), TreeStream(), BytesStream(), CliStream(), PerFileStream(), AnnotateStream(), TemplateStream(), WalkRaceStream(), TerminationStream()],
     assumptions=[
         "tomlkit, python-debian and the UTF-8 codec are oracles of the model: the outcomes 'not TOML' (TOMLKitError), 'not a dep5 file' "
         "(debian Error / ValueError) and 'not UTF-8' (UnicodeDecodeError) are enumerated inputs of Model.tomlFromFile / dep5FromFile; that "
